@@ -67,6 +67,9 @@ def entries_of(P, c, include_initialize=False):
             continue
         if e == 'initialize' and not include_initialize:
             continue
+        hit = P.lookup(c, e) if not e.startswith('prop:') else None
+        if hit and hit[1] == 'method' and (e in getattr(hit[0], 'static', ()) or not hit[2].args.args or hit[2].args.args[0].arg not in ('self', 'cls')):
+            continue        # a static helper has no device to act on: it is not an entry point of the device
         out[e] = k
     return out
 
@@ -864,3 +867,51 @@ def falsy_default_obligation(ctx, oid, class_names, what):
                        'behaves like "not given"; test `is None` instead', file=c.mod.path, line=x.lineno)
     o.sample({'classes': [cn for cn in class_names if P.has_cls(cn)], 'functions_scanned': n})
     return o
+
+
+# ---- "how many parts is this" -----------------------------------------------------------------------------------------------
+def count_functions(ctx):
+    """{method name: [(class, param)]} of the functions of the package that compute the number of parts an item stands for -- len(x.parts) for a
+    Batch, 1 otherwise -- found by what they return (dv.return_cases), wherever they live (Buffer, Batch, PartHandler, Sink ...) and whatever
+    they are called; a function that only forwards its argument to one of them is one too."""
+    P = ctx.P
+    cached = P.__dict__.get('_sa_count_functions')
+    if cached is not None:
+        return cached
+    out = {}
+    cands = []
+    for cs in P.by_name.values():
+        for c in cs:
+            for nm, fn in c.methods.items():
+                params = [a.arg for a in fn.args.args if a.arg not in ('self', 'cls')]
+                if len(params) != 1 or fn.args.vararg or fn.args.kwarg:
+                    continue
+                cands.append((c, nm, fn, params[0]))
+    for c, nm, fn, p in cands:
+        src = ast.unparse(fn)
+        if 'Batch' not in src or '.parts' not in src:
+            continue
+
+        def m_batch(test, frame, p=p):
+            if isinstance(test, ast.Call) and ast.unparse(test.func) == 'isinstance' and len(test.args) == 2 and ast.unparse(test.args[0]) == p and ast.unparse(test.args[1]) == 'Batch':
+                return True
+            return None
+        try:
+            cases = return_cases(ctx, c, nm, [('#batch', m_batch)])
+        except Exception:      # noqa: BLE001 -- not a function this model understands: not a count function
+            continue
+        if cases.get(('T',)) == {f'len({p}.parts)'} and cases.get(('F',)) == {'1'}:
+            out.setdefault(nm, []).append((c, p))
+    changed = True
+    while changed:
+        changed = False
+        for c, nm, fn, p in cands:
+            if nm in out and any(k is c for k, _ in out[nm]):
+                continue
+            body = [s_ for s_ in fn.body if not (isinstance(s_, ast.Expr) and isinstance(s_.value, ast.Constant))]
+            if len(body) == 1 and isinstance(body[0], ast.Return) and isinstance(body[0].value, ast.Call) and isinstance(body[0].value.func, ast.Attribute) \
+                    and body[0].value.func.attr in out and [ast.unparse(a) for a in body[0].value.args] == [p] and not body[0].value.keywords:
+                out.setdefault(nm, []).append((c, p))
+                changed = True
+    P.__dict__['_sa_count_functions'] = out
+    return out
